@@ -392,9 +392,7 @@ def full_signature(ctx, mods, ans):
     text = "\n".join(t for _, t in mods)
     d = describe_full(ans)
     for f in ctx.open_findings:
-        if f["id"] == "C05-F2" and ans.startswith("panic@compile") and re.search(r"[0-9]", text) \
-                and re.search(r"attempt to (add|subtract|multiply|divide|negate|calculate the remainder) with overflow", d):
-            return f
+        pass   # no open C05 finding has a signature any more (F1, F2, F3 are fixed: regressions are VIOLATIONs)
     return None
 
 
@@ -493,6 +491,11 @@ def run(ctx):
         except Exception:
             return False
         before = len(ctx.violations)
+        # the regression corpus first (it holds the inputs on which a non-consuming recovery arm spins)
+        _, cfull0 = read_corpus(PROP)
+        check_full_batch(ctx, cfull0, "search after broken proof: corpus", stats, timeout_ms=3000)
+        if len(ctx.violations) > before:
+            return True
         r2 = common.Rng(ctx.seed * 7919 + 5)
         texts = [avoid_open_signatures(gen_soup(r2.fork(), vocab, r2.range(1, 30))) for _ in range(1500)]
         answers = run_full([("Main", t) for t in texts])
